@@ -2298,6 +2298,9 @@ static ASTNode *parse_expression(Stage1Parser *p) {
         parser_error(p, tok ? tok->line : 0, tok ? tok->column : 0, "Error at line %d, column %d: Expression recursion depth exceeded maximum (%d). Possible infinite recursion or extremely nested expression.\n",
                 tok ? tok->line : 0, tok ? tok->column : 0, MAX_RECURSION_DEPTH);
         p->recursion_depth--;
+        /* Fatal for this file: move to EOF so that every enclosing production
+         * unwinds, instead of re-descending to the limit from each following token. */
+        if (p->count > 0) p->pos = p->count - 1;
         return NULL;
     }
     
@@ -2518,6 +2521,8 @@ static ASTNode *parse_block(Stage1Parser *p) {
         parser_error(p, tok ? tok->line : 0, tok ? tok->column : 0, "Error at line %d, column %d: Block recursion depth exceeded maximum (%d). Possible infinite recursion or extremely nested blocks.\n",
                 tok ? tok->line : 0, tok ? tok->column : 0, MAX_RECURSION_DEPTH);
         p->recursion_depth--;
+        /* Fatal for this file: move to EOF (see parse_expression). */
+        if (p->count > 0) p->pos = p->count - 1;
         return NULL;
     }
     
